@@ -116,6 +116,30 @@ def gen(rng, tier):
             lines.append("ENDHIST")
             hists.append((hid, ds, w, m, cap, qs))
         lines.append("DROP " + ds.did)
+    # values and column names that agree on a long prefix (URLs, paths): a cache key built from
+    # a bounded part of the operands would confuse them
+    for pl in (30, 61, 62, 63, 64, 127, 128, 255, 256, 1000):
+        P = (b"http://example.org/a/rather/long/path/with/many/segments/" * 20)[:pl]
+        cl1, cl2 = P.replace(b"/", b"_").replace(b":", b"_").replace(b".", b"_") + b"a", P.replace(b"/", b"_").replace(b":", b"_").replace(b".", b"_") + b"b"
+        rows = [{b"u": P + b"1", cl1: b"1", b"k": b"x"}, {b"u": P + b"2", cl2: b"1", b"k": b"x"}, {b"u": P + b"2", cl1: b"1", cl2: b"1"},
+                {b"u": P + b"1" + P, b"k": b"y"}, {b"u": P, cl1: b"2"}, {b"u": P + b"3", b"k": b"x"}, {b"u": P + b"3"}]
+        ds = dp.Dataset("hl%d" % pl, rows, "long-common-prefix")
+        lines += ds.lines()
+        u = [dp.e_eq(b"u", P + b"1"), dp.e_eq(b"u", P + b"2"), dp.e_eq(b"u", P + b"3"), dp.e_eq(b"u", P), dp.e_eq(b"u", P + b"1" + P), dp.e_eq(b"u", P + b"4")]
+        c = [dp.e_eq(cl1, b"1"), dp.e_eq(cl2, b"1"), dp.e_eq(cl1, b"2")]
+        k = dp.e_eq(b"k", b"x")
+        seq = u + c + [("N", x) for x in u[:3]] + [("A", [x, k]) for x in u[:3]] + [("O", [x, k]) for x in u[:3]] + [("A", [x, k]) for x in c] + [("O", [u[0], u[1]]), ("O", [u[1], u[0]]), ("A", [c[0], c[1]]), ("A", [c[1], c[0]])]
+        for hn, (w, m) in enumerate([("mem", "ondemand"), ("big", "preload")][:1 if tier == "quick" and pl not in (62, 64) else 2]):
+            hid = "%s.t%d" % (ds.did, hn)
+            lines.append("HIST %s %s %s %s %d %d" % (hid, ds.did, w, m, 1 << 22, len(seq)))
+            qs = []
+            for j, e in enumerate(seq):
+                q = dp.Query("%s.%d" % (hid, j), ds, w, m, e, [], 0)
+                lines.append("HQ %s %s %s %s %s GB 0" % (q.qid, ds.did, w, m, dp.enc_expr(e)))
+                qs.append(q)
+            lines.append("ENDHIST")
+            hists.append((hid, ds, w, m, 1 << 22, qs))
+        lines.append("DROP " + ds.did)
     return lines, hists
 
 
